@@ -1,21 +1,65 @@
 #!/usr/bin/env python3
-"""Store a confirmed seeded change: tools/seedstore.py <Cnn> <k> <srcdir(_seed)> "<needs>" "<result line(s)>" """
-import json, os, shutil, sys
-prop, k, src, needs, result = sys.argv[1:6]
-d = os.path.join("/verif/seeded", "%s-%s" % (prop, k))
-os.makedirs(d, exist_ok=True)
-shutil.copyfile(os.path.join(src, "patch%s.diff" % k), os.path.join(d, "patch.diff"))
-for cand in ("demo%s_test.go" % k,):
-    if os.path.exists(os.path.join(src, cand)):
-        shutil.copyfile(os.path.join(src, cand), os.path.join(d, "demo_test.go.txt"))
-meta_src = os.path.join(src, "meta%s.txt" % k)
-notes = open(meta_src).read() if os.path.exists(meta_src) else ""
-json.dump({
-    "property": prop,
-    "breaks": notes[:1500],
-    "needs_to_manifest": needs,
-    "confirmed": "tools/seedeval.sh: in a scratch worktree of /repo the change compiles, the existing test suite passes with it, the demonstration (demo_test.go.txt, copied next to the package under test) fails with the change and passes without it",
-    "check_result": result,
-    "author": "fresh sub-agent given only the property text and a scratch worktree",
-}, open(os.path.join(d, "meta.json"), "w"), indent=1)
-print("stored", d)
+"""Store confirmed seeded changes: tools/seedstore.py  (reads .work/seedbatch.txt and /tmp/seed/Cnn/_seed)
+A change is stored only when seedeval confirmed it: demo passes without, fails with, suite passes with."""
+import json, os, re, shutil, sys
+R = "/verif"
+lines = [l.rstrip("\n") for l in open(R + "/.work/seedbatch.txt")]
+notes = json.load(open(R + "/tools/seednotes.json")) if os.path.exists(R + "/tools/seednotes.json") else {}
+res = {}
+for l in lines:
+    m = re.match(r"(C\d\d)-(\d) SEEDEVAL C\d\d (.*)", l)
+    if not m:
+        continue
+    key = "%s-%s" % (m.group(1), m.group(2))
+    res.setdefault(key, []).append(m.group(3))
+
+def section(text, pat):
+    ls = text.split("\n")
+    for i, l in enumerate(ls):
+        if re.match(pat, l.strip(), re.I):
+            out = []
+            for x in ls[i + 1:]:
+                if re.match(r"^(commands run|how to|demonstration|files|what|clause|why)\b", x.strip(), re.I) and out:
+                    break
+                out.append(x)
+            return re.sub(r"\s+", " ", " ".join(out)).strip(" =-")[:900]
+    return ""
+
+for key, rs in sorted(res.items()):
+    prop, k = key.split("-")
+    conf = [r for r in rs if r.startswith("demo_without")]
+    chk = [r for r in rs if r.startswith("check=")]
+    if not conf or "demo_without=0 demo_with=1 suite_with=0" not in conf[0]:
+        print("NOT CONFIRMED", key, rs); continue
+    src = "/tmp/seed/%s/_seed" % prop
+    d = os.path.join(R, "seeded", key)
+    os.makedirs(d, exist_ok=True)
+    shutil.copyfile(os.path.join(src, "patch%s.diff" % k), os.path.join(d, "patch.diff"))
+    demo = os.path.join(src, "demo%s_test.go" % k)
+    if os.path.exists(demo):
+        shutil.copyfile(demo, os.path.join(d, "demo_test.go.txt"))
+    elif os.path.isdir(os.path.join(src, "demo%s" % k)):
+        dd = os.path.join(d, "demo")
+        shutil.rmtree(dd, ignore_errors=True)
+        shutil.copytree(os.path.join(src, "demo%s" % k), dd, ignore=shutil.ignore_patterns(".out"))
+        for root, _, files in os.walk(dd):          # keep Go sources inert inside /verif
+            for f in files:
+                if f.endswith(".go") or f in ("go.mod", "go.sum"):
+                    os.rename(os.path.join(root, f), os.path.join(root, f + ".txt"))
+    mt = os.path.join(src, "meta%s.txt" % k)
+    text = open(mt).read() if os.path.exists(mt) else ""
+    verdict = "; ".join(c.replace("check=", "./check ", 1) for c in chk)
+    caught = "VIOLATION" in verdict
+    meta = {
+        "property": prop,
+        "breaks": re.sub(r"\s+", " ", text)[:1200],
+        "needs_to_manifest": section(text, r"what it needs") or "see breaks",
+        "confirmed": "tools/seedeval.sh / tools/seedbatch.sh in a scratch worktree of /repo (/tmp/evalrepo): the change compiles (go build ./...), the existing test suite passes with it (go test ./...), the demonstration fails with the change and passes without it: " + conf[0],
+        "check_result": verdict,
+        "caught": caught,
+        "concrete_replay": caught and "no-failing-input-found" not in verdict,
+        "history": notes.get(key, ""),
+        "author": "fresh sub-agent given only the property text and a scratch worktree of /repo under /tmp/seed; nothing from /verif",
+    }
+    json.dump(meta, open(os.path.join(d, "meta.json"), "w"), indent=1)
+    print("stored", key, "caught" if caught else "MISSED", verdict[:120])
